@@ -398,7 +398,48 @@ def drop_signature(s, info):
     return "drop:%r before %r" % (s[off], s[off + 1 : off + 3])
 
 
+class _Timeout(BaseException):
+    pass
+
+
+_TIMEOUTS = [0]
+
+
+class _deadline:
+    """a wall-clock limit for code that loops at Python level (a regular expression that backtracks inside the
+    C matcher is not interrupted by this: those inputs belong to the time families, which run in child processes)"""
+
+    def __init__(self, seconds):
+        self.seconds = seconds
+
+    def __enter__(self):
+        import signal
+
+        def onalarm(signum, frame):
+            raise _Timeout()
+
+        self.old = signal.signal(signal.SIGALRM, onalarm)
+        signal.setitimer(signal.ITIMER_REAL, self.seconds)
+
+    def __exit__(self, *a):
+        import signal
+
+        signal.setitimer(signal.ITIMER_REAL, 0)
+        signal.signal(signal.SIGALRM, self.old)
+        return False
+
+
 def check_string(s, st, kind):
+    limit = 5 if _TIMEOUTS[0] < 3 else 1  # (a few long waits per worker, then short ones: the signature is the same)
+    try:
+        with _deadline(limit):
+            return _check_string(s, st, kind)
+    except _Timeout:
+        _TIMEOUTS[0] += 1
+        st.violation("time:short-input-does-not-terminate", {"kind": kind, "text": s}, "time: lexing / rendering a short input finishes", observed="still running after %d s" % limit)
+
+
+def _check_string(s, st, kind):
     st.evaluations += 1
     st.states += 1
     st.transitions += 1
